@@ -39,6 +39,11 @@ changed following construction (public item assignment `score[i] = part`, in-pla
 `score.parts`, assignment of a new list): every edit history to depth 2 over set / append / insert / delete /
 swap.  "The parts of a score" are then the parts it currently holds (Score.parts - what the score-level note
 array, len(), indexing and iteration read), not the parts it was constructed with.
+Sub-spaces `magnitude-divisions`, `magnitude-ticks` and `long-timelines` add a magnitude dimension to the small
+families: divisions of several hundred to 65537 (lcm up to 4e7), content shifted 16 and 1000 quarters from the
+start, single notes at ticks multiplied by up to 10080 and shifted beyond 2**16 and 2**24, and a regular pattern over
+6 (thorough: up to 64) measures - "positions and durations rescaled to the least common multiple" has to hold
+wherever the result is representable (all merged positions below 2**31).
 The convenience loader `load_score_as_part` (anchor) is run on written MusicXML files in sub-spaces
 `loader` and `loader-noteless` with the divisions, registration, voice and note-array clauses and with
 elements-present restricted to notes, rests and unpitched notes (identified by id).
@@ -78,6 +83,10 @@ ASSUMPTIONS = [
     "TimePoint.quarter of the merged part must equal the lcm (it is the divisions value the time point "
     "reports and the MusicXML exporter and symbolic-duration estimator read)",
     "float32 columns are compared within 1e-6 relative; integer columns exactly",
+    "the division columns of the note arrays are 32-bit signed integers (documented dtype '<i4'): the magnitude "
+    "sub-spaces generate only inputs whose merged positions (input position x lcm / divisions) and whose lcm stay below "
+    "2**31; input positions, divisions and the merged positions themselves are Python ints of any size below that, so "
+    "products such as position x lcm (up to 4e12) exceed 32 bits in the generated cases",
     "mc/ir.py builder (public construction API) is trusted to build what the description says",
     "'the first part' and the order of 'the parts of a score' are the depth-first order of the part/group "
     "tree (docstring of iter_parts: groups 'are traversed in a depth-first fashion'; Score.parts is built by it)",
@@ -1272,6 +1281,125 @@ def gen_edited(tier):
     return g
 
 
+# ---------------------------------------------------------------------------------------------
+# magnitude dimension: the same small families at large divisions, far from the start of the timeline, and
+# a regular pattern over many measures.  The note arrays store positions as 32-bit signed integers, so every
+# generated case keeps every position of the merged part (and of the score-level array) below 2**31.
+
+I32 = 2 ** 31
+MAG_DIVS = [1, 480, 625, 768, 10080, 65537]
+MAG_DIVS_TH = [6, 960, 44100]
+MAG_TRIPLES = [(625, 768, 600), (480, 960, 10080), (1, 768, 625), (65537, 1, 480)]
+MAG_OFFQ = [0, 16, 1000]
+ALL_STRUCT = M.FIRST_ONLY + ("clef",)
+
+
+def shifted_rich_part(i, d, offq):
+    """the fixed rich content of space 'divisions', `offq` quarters (a multiple of 4) after the start of the
+    timeline; signatures, clef, page and system stay at 0, the final barline follows the content; the measures
+    0..offq/4 are all there for offq <= 16, none for larger offsets (cost: one time point per measure)"""
+    base = rich_part(i, d)
+    sh = offq * d
+    objs = []
+    for o in base["objs"]:
+        if o["k"] in ALL_STRUCT:
+            continue
+        o = dict(o)
+        for key in ("s", "e"):
+            if o.get(key) is not None:
+                o[key] = o[key] + sh
+        objs.append(o)
+    kinds = ALL_STRUCT if offq <= 16 else tuple(k for k in ALL_STRUCT if k != "measure")
+    return part_spec(i, d, objs, kinds=kinds, nmeas=offq // 4 + 1)
+
+
+def gen_magnitude_divisions(tier):
+    th = tier == "thorough"
+    D = MAG_DIVS + (MAG_DIVS_TH if th else [])
+
+    def g():
+        k = 0
+        tuples = [(a, b) for a in D for b in D] + MAG_TRIPLES
+        for t, ds in enumerate(tuples):
+            L = lcm_all(ds)
+            for u, offq in enumerate(MAG_OFFQ):
+                if (offq + 4) * L >= I32:
+                    continue  # not representable in the 32-bit columns of the note arrays
+                for mode in MODES:
+                    k += 1
+                    if not th and MODES[(t + u) % 3] != mode:
+                        continue
+                    n = len(ds)
+                    yield mk(SHAPES_N[n][k % len(SHAPES_N[n])], mode, [shifted_rich_part(i, d, offq) for i, d in enumerate(ds)],
+                             "mag-div:%s:+%dq" % ("/".join(map(str, ds)), offq))
+    return g
+
+
+TICK_PAIRS = [(1, 1), (480, 960), (960, 480), (768, 625), (625, 768), (10080, 625), (1, 65537), (65537, 480), (44100, 48000)]
+TICK_FACT = [1, 480, 10080]
+TICK_OFF = [0, 2 ** 16 + 1, 2 ** 24 + 1]
+
+
+def mag_timing_part(i, d, slot, f, o):
+    a, b = slot
+    return part_spec(i, d, [note(M.pid_note(i, 0), o + a * f, o + (a + b) * f, STEPS[(2 * i) % 7], 4, 1, 1)], struct=False)
+
+
+def gen_magnitude_ticks(tier):
+    """one note per part (no structure); the note of one part ("subject") at tick o + a*f .. o + (a+b)*f for every
+    slot (a, b), factor f and offset o, the note of the other part at a plain slot near 0"""
+    th = tier == "thorough"
+
+    def g():
+        k = c = 0
+        for which in (0, 1):
+            for ds in TICK_PAIRS:
+                mult = lcm_all(ds) // ds[which]
+                for f in TICK_FACT:
+                    for o in TICK_OFF:
+                        if (o + 6 * f) * mult >= I32:
+                            continue
+                        c += 1
+                        for si, s in enumerate(SLOTS):
+                            k += 1
+                            if not th and si != (5 * c) % 12:
+                                continue
+                            other = SLOTS[(5 * k) % 12]
+                            sub = mag_timing_part(which, ds[which], s, f, o)
+                            oth = mag_timing_part(1 - which, ds[1 - which], other, 1, 0)
+                            yield mk(SHAPES_N[2][k % 6], MODES[k % 3], [sub, oth] if which == 0 else [oth, sub],
+                                     "mag-tick:%s:p%d:x%d:+%d" % ("/".join(map(str, ds)), which, f, o))
+    return g
+
+
+LONG_DIVS = [(4, 6), (768, 625), (625, 768, 600)]
+
+
+def long_part(i, d, nmeas):
+    """nmeas complete 4/4 measures; on every quarter one quarter note in each of two voices"""
+    objs = []
+    j = 0
+    for qn in range(4 * nmeas):
+        for v in (1, 2):
+            objs.append(note(M.pid_note(i, j), qn * d, (qn + 1) * d, STEPS[(i + qn + 2 * v) % 7], 3 + v, v, 1))
+            j += 1
+    return part_spec(i, d, objs, nmeas=nmeas)
+
+
+def gen_long(tier):
+    th = tier == "thorough"
+
+    def g():
+        for nmeas in ((6, 24, 64) if th else (6,)):
+            for t, ds in enumerate(LONG_DIVS):
+                for mode in MODES:
+                    if not th and MODES[t] != mode:
+                        continue
+                    yield mk("score" if len(ds) == 2 else "list", mode, [long_part(i, d, nmeas) for i, d in enumerate(ds)],
+                             "long:%d:%s" % (nmeas, "/".join(map(str, ds))))
+    return g
+
+
 def spaces(tier, seed):
     th = tier == "thorough"
     sp = []
@@ -1361,6 +1489,25 @@ def spaces(tier, seed):
                      "= 2 (69 sequences) x 2 shapes, ways, mode and read-before-edit cycled") +
                     ".  Results of 1 part: identity clauses; of 2-5 parts: all clauses, against the parts the score holds "
                     "after the edits (Score.parts, iteration and indexing compared with the list model)"))
+    sp.append(Space("magnitude-divisions", gen_magnitude_divisions(tier), True,
+                    "the fixed rich content of space 'divisions' (4 positions per part, full structure) at large divisions and far "
+                    "from the start: all ordered pairs of divisions from {1,480,625,768,10080,65537}" +
+                    (" + {6,960,44100}" if th else "") + " and the triples (625,768,600), (480,960,10080), (1,768,625), (65537,1,480) "
+                    "x content shifted by {0, 16, 1000} quarters in every part (measures 0..4 present for 16, no measures for 1000; "
+                    "signatures at 0, final barline after the content) " + ("x 3 modes" if th else "(mode cycled)") +
+                    "; shape cycled; tuples x offsets whose last merged position (offset + 4 quarters) x lcm reaches 2**31 are left "
+                    "out (32-bit note-array columns); lcm up to 41e6, input positions x lcm up to 4e12"))
+    sp.append(Space("magnitude-ticks", gen_magnitude_ticks(tier), True,
+                    "one note per part, no structure: the note of either part at ticks o + a*f .. o + (a+b)*f with factor f in "
+                    "{1,480,10080} x offset o in {0, 2**16+1, 2**24+1} x 9 divisions pairs {(1,1),(480,960),(960,480),(768,625),"
+                    "(625,768),(10080,625),(1,65537),(65537,480),(44100,48000)} (combinations whose merged end reaches 2**31 left "
+                    "out) x " + ("all 12 slots (a, b)" if th else "slot (a, b) cycled over the 12") +
+                    "; the other part's note at a cycled slot near 0; mode and shape cycled"))
+    sp.append(Space("long-timelines", gen_long(tier), True,
+                    "a regular pattern (a quarter note in each of two voices on every quarter, complete 4/4 measures, full "
+                    "structure) over N measures, N in " + ("{6, 24, 64}" if th else "{6}") +
+                    " x divisions {(4,6), (768,625), (625,768,600)} " + ("x 3 modes" if th else "(mode cycled)") +
+                    " (cost: about 30 ms per time point and part)"))
     return sp
 
 
